@@ -1,5 +1,5 @@
-import Irismod.Props.C16
-open Irismod Irismod.Sdk Irismod.Params Irismod.Props.C16
+import Irismod.Proofs.ParamsMonitor
+open Irismod Irismod.Sdk Irismod.Params Irismod.Props.C16 Irismod.Proofs.ParamsMonitor
 #print axioms handlers_gated_and_validating
 #print axioms update_refuses_non_authority
 #print axioms update_accepted_iff
@@ -34,6 +34,15 @@ open Irismod Irismod.Sdk Irismod.Params Irismod.Props.C16
 #print axioms htlc_fragments_noabort_partial
 #print axioms htlc_noabort_fails_extreme_amount
 #print axioms htlc_time_window_nonempty
+#print axioms update_sound
+#print axioms genesis_sound
+#print axioms reset_sound
+#print axioms battery_nil_of_no_class
+#print axioms battery_sound
+#print axioms track_model
+#print axioms monitor_sound
+#print axioms monitor_sound_strict
+#print axioms monitor_sound_trace
 
 /-- a history: an accepted update of every module by the authority, a refused one by a stranger,
     a refused invalid one; then the fragments evaluated under the stored sets -/
